@@ -96,7 +96,7 @@ def _battery(draw: Any) -> dict[str, Any]:
     }
 
 
-def strategy(tier: str) -> st.SearchStrategy[Any]:
+def strategy(tier: str, pid: str = "C18") -> st.SearchStrategy[Any]:
     nmax = 6 if tier == "quick" else 8
     return st.fixed_dictionaries(
         {
